@@ -174,6 +174,8 @@ def run(repo: Repo, rep: Report) -> None:
                         rep.ob("C05.b-xml-escape-discipline", mod, q, norm(c)[:90], why is not None,
                                why if why else "raw write of %s: not sanitised and not table-listed" % norm(a), node=c)
 
+    xmlns_agreement(repo, rep, "C05.b2-xmlns-declared-as-used")
+
     # ------------------------------------------------------------------ (c)
     rep.rule("C05.c-json-by-dumps", "JSON text written by the JSON-LD, HexTuples and SPARQL-JSON serializers comes from json.dumps / orjson.dumps", floor=5)
     for modname, qual in (("rdflib.plugins.serializers.jsonld", "JsonLDSerializer.serialize"), ("rdflib.plugins.sparql.results.jsonresults", "JSONResultSerializer.serialize"),
@@ -205,3 +207,24 @@ def run(repo: Repo, rep: Report) -> None:
                 rep.ob("C05.c-json-by-dumps", mod, qual, c, ok, "text from dumps()" if ok else "JSON output text %s is not the result of json.dumps/orjson.dumps" % norm(a)[:60], node=c)
         if nw == 0:
             raise AnalysisError("%s: no stream.write found" % qual)
+
+
+def xmlns_agreement(repo: Repo, rep: Report, RULE: str) -> None:
+    """every prefix used in an element name is declared: the function that collects the xmlns declarations splits
+    IRIs with the same (strict) qname computation as the functions that write element names"""
+    rep.rule(RULE,
+             "rdfxml.XMLSerializer: the xmlns declarations (__bindings) and the element names (predicate) are computed with qname functions "
+             "of the same strictness (compute_qname_strict / qname_strict); otherwise an element can use a generated prefix that was never declared", floor=2)
+    mod = repo.mod("rdflib.plugins.serializers.rdfxml")
+    strict = {}
+    for q in ("XMLSerializer.__bindings", "XMLSerializer.predicate"):
+        f = mod.func(q)
+        calls = [norm(c.func).rsplit(".", 1)[-1] for c in ast.walk(f) if isinstance(c, ast.Call) and isinstance(c.func, ast.Attribute)
+                 and c.func.attr in ("compute_qname", "compute_qname_strict", "qname", "qname_strict")]
+        if not calls:
+            raise AnalysisError("%s: no qname computation found" % q)
+        strict[q] = {c.endswith("_strict") for c in calls}
+        rep.ob(RULE, mod, q, "uses %s" % sorted(set(calls)), len(strict[q]) == 1, "" if len(strict[q]) == 1 else "%s mixes strict and non-strict qname computation" % q, node=f)
+    ok = strict["XMLSerializer.__bindings"] == strict["XMLSerializer.predicate"] == {True}
+    rep.ob(RULE, mod, "XMLSerializer", "declarations and element names both use the strict split", ok,
+           "every used prefix is declared" if ok else "xmlns declarations and element names are computed with different qname functions: for a predicate whose local part is not an NCName the element uses a prefix that is never declared (unbound prefix, not namespace-well-formed)", node=mod.func("XMLSerializer.predicate"))
